@@ -493,18 +493,70 @@ def proj_json(x):
     return json.loads(json.dumps(x, default=str))
 
 
+# ------------------------------------------------------------------------------ independent reference decoder
+def py_reference(b):
+    """The abstract zone of a TZif stream decoded HERE with struct (independent of the model's parse_tzif /
+    build): initial offset = first non-DST type (else type 0); per transition the gmtoff of its type; from the
+    last transition on the zone's standard type (last non-DST type among the transitions, else the last DST one)
+    -- dateutil's documented rule, compared with the raw data separately (finding F-C04-after-last-transition).
+    Returns (init, [(t, off)], reference_bytes) where reference_bytes is a TZif stream with one standard type per
+    distinct offset, so that decoding it involves none of the std / before / dst rules."""
+    try:
+        if b[:4] != b"TZif":
+            return None
+        gmtcnt, stdcnt, leapcnt, timecnt, typecnt, charcnt = struct.unpack(">6l", b[20:44])
+        if typecnt <= 0 or timecnt < 0:
+            return None
+        p = 44
+        times = list(struct.unpack(">%dl" % timecnt, b[p:p + 4 * timecnt]))
+        p += 4 * timecnt
+        idx = list(struct.unpack(">%dB" % timecnt, b[p:p + timecnt]))
+        p += timecnt
+        types = [struct.unpack(">lbb", b[p + 6 * k:p + 6 * k + 6]) for k in range(typecnt)]
+    except struct.error:
+        return None
+    if any(k >= typecnt for k in idx):
+        return None
+    nondst = [t for t in types if t[1] == 0]
+    init = (nondst[0] if nondst else types[0])[0]
+    offs = [types[k][0] for k in idx]
+    if idx:
+        std = None
+        for k in reversed(idx):
+            if types[k][1] == 0:
+                std = types[k]
+                break
+        if std is None:
+            std = types[idx[-1]] if False else [types[k] for k in reversed(idx) if types[k][1] != 0][0]
+        offs[-1] = std[0]
+    else:
+        init = types[0][0]
+    trans = list(zip(times, offs))
+    distinct = []
+    for o_ in [init] + offs:
+        if o_ not in distinct:
+            distinct.append(o_)
+    raw = {"leapcnt": 0, "times": times, "idx": [distinct.index(o_) for o_ in offs],
+           "types": [(o_, 0, 0) for o_ in distinct], "abbr": [88, 0], "isstd": [], "isgmt": []}
+    try:
+        rb = py_render(raw)
+    except struct.error:
+        return None
+    return init, trans, rb
+
+
 # ------------------------------------------------------------------------------ per-zone examination
 def is_ok(x):
     return not (isinstance(x, tuple) and len(x) >= 1 and x[0] in ("E", "X", "FRAC"))
 
 
-def examine_utc(o, name, b, z, inf, us, usec_of):
+def examine_utc(o, name, b, z, inf, us, usec_of, sb=None):
     """Compare implementation / model / spec on UTC instants of one zone.
     Returns dict(n, model_diff, prop_fail, spec_diff, data_diff, collisions, samples)."""
     out = {"n": len(us), "model_diff": [], "prop_fail": [], "spec_diff": [], "data_diff": [],
-           "collisions": [], "samples": [], "folds": 0, "in_range": 0}
+           "collisions": [], "samples": [], "folds": 0, "in_range": 0, "after_last": [], "after_last_n": 0}
     mo = model_obs_utc(o, b, us)
-    sp = spec_utc(o, b, us)
+    sp = spec_utc(o, sb if sb is not None else b, us)     # spec on the independently decoded reference
     sd = spec_data(o, b, us)
     seen = {}
     import bisect as _bisect
@@ -537,6 +589,13 @@ def examine_utc(o, name, b, z, inf, us, usec_of):
         inr, g, isd, ab = sd[k]
         if not inr and tlist and u < tlist[0]:
             inr = 1        # before the first transition: the data's first standard type (C06)
+        if not inr and tlist and u >= tlist[-1] and g is not None:
+            # from the last transition on dateutil applies ttinfo_std, the data its last type (audit A2):
+            # compared with the RAW data and reported through finding F-C04-after-last-transition
+            out["after_last_n"] += 1
+            if off != g or nm != ab or w - u != g:
+                out["after_last"].append({"u": u, "impl": [off, dst, nm], "data": [g, isd, ab],
+                                                         "last_transition": tlist[-1], "after_last": True})
         if inr:
             out["in_range"] += 1
             if g is None or off != g or nm != ab or (isd == 0 and dst != 0):
@@ -550,7 +609,7 @@ def examine_utc(o, name, b, z, inf, us, usec_of):
     return out
 
 
-def examine_wall(o, name, b, z, inf, ws):
+def examine_wall(o, name, b, z, inf, ws, sb=None):
     """Compare implementation / model / spec on wall times (both folds) of one zone."""
     out = {"n": 2 * len(ws), "model_diff": [], "spec_diff": [], "samples": [],
            "count": {0: 0, 1: 0, 2: 0, "more": 0}, "not_isolated": [], "resolve_checked": 0}
